@@ -319,14 +319,36 @@ func crafted() []string {
 			{Name: "viewer", Rewrite: this(), Restrs: []fga.Restr{{Typ: "group", Rel: "member"}}},
 			{Name: "can", Rewrite: ttu("parent", "viewer")},
 		}}}}
-	t6 := []fga.Tuple{
-		{Obj: "doc:a", Rel: "viewer", User: "group:c#member"}, {Obj: "doc:a", Rel: "viewer", User: "group:b#member"},
-		{Obj: "group:a", Rel: "member", User: "user:x"}, {Obj: "group:b", Rel: "member", User: "user:x"},
-		{Obj: "doc:a", Rel: "parent", User: "folder:c"}, {Obj: "doc:a", Rel: "parent", User: "folder:b"},
-		{Obj: "folder:a", Rel: "viewer", User: "user:x"}, {Obj: "folder:b", Rel: "viewer", User: "user:x"},
+	var t6 []fga.Tuple
+	for k := 60; k >= 10; k-- { // a long right stream of large values first: the left batch arrives in the middle of it
+		t6 = append(t6, fga.Tuple{Obj: "doc:a", Rel: "viewer", User: fmt.Sprintf("group:z%d#member", k)},
+			fga.Tuple{Obj: "doc:a", Rel: "parent", User: fmt.Sprintf("folder:z%d", k)})
 	}
+	t6 = append(t6,
+		fga.Tuple{Obj: "doc:a", Rel: "viewer", User: "group:b#member"},
+		fga.Tuple{Obj: "group:a", Rel: "member", User: "user:x"}, fga.Tuple{Obj: "group:b", Rel: "member", User: "user:x"},
+		fga.Tuple{Obj: "doc:a", Rel: "parent", User: "folder:b"},
+		fga.Tuple{Obj: "folder:a", Rel: "viewer", User: "user:x"}, fga.Tuple{Obj: "folder:b", Rel: "viewer", User: "user:x"})
 	mk(m6, t6, fga.Req{Obj: "doc:a", Rel: "viewer", User: "user:x"})
 	mk(m6, t6, fga.Req{Obj: "doc:a", Rel: "can", User: "user:x"})
+	// an error in one branch of a union and `true` in a later one: the union answers `true`
+	// (DefaultStrategy.execute over usersets, ResolveUnionEdges over the edges of a relation)
+	m7 := &fga.Model{Types: []*fga.TypeDef{{Name: "user"},
+		{Name: "group", Rels: []*fga.RelDef{{Name: "member", Rewrite: this(), Restrs: []fga.Restr{{Typ: "user", Cond: "c1"}}}}},
+		{Name: "doc", Rels: []*fga.RelDef{
+			{Name: "editor", Rewrite: this(), Restrs: []fga.Restr{u}},
+			{Name: "viewer", Rewrite: this(), Restrs: []fga.Restr{{Typ: "group", Rel: "member"}}},
+			{Name: "owner", Rewrite: un(this(), cu("editor")), Restrs: []fga.Restr{{Typ: "user", Cond: "c1"}}},
+		}}},
+		Conds: []*fga.CondDef{{Name: "c1", Param: "x", Op: "lt", Const: 10}}}
+	t7 := []fga.Tuple{
+		{Obj: "doc:a", Rel: "viewer", User: "group:a#member"}, {Obj: "doc:a", Rel: "viewer", User: "group:b#member"},
+		{Obj: "group:a", Rel: "member", User: "user:x", Cond: "c1"},
+		{Obj: "group:b", Rel: "member", User: "user:x", Cond: "c1", Ctx: []fga.KV{{K: "x", V: 5}}},
+		{Obj: "doc:a", Rel: "owner", User: "user:x", Cond: "c1"}, {Obj: "doc:a", Rel: "editor", User: "user:x"},
+	}
+	mk(m7, t7, fga.Req{Obj: "doc:a", Rel: "viewer", User: "user:x"})
+	mk(m7, t7, fga.Req{Obj: "doc:a", Rel: "owner", User: "user:x"})
 	// AND inside a tuple cycle: the weighted graph cannot be built -> fallback to the default engine
 	m5 := &fga.Model{Types: []*fga.TypeDef{{Name: "user"},
 		{Name: "group", Rels: []*fga.RelDef{
